@@ -46,6 +46,31 @@ def fixed_cases(tier):
                 continue
             for flags in (["value"], ["name"]):
                 out.append({"descent": {"n": n, "pos": pos, "flags": flags}})
+    # descent-after-limit matrix: the single descending step comes right after a variant sitting on an integer type's limit
+    from . import C01
+    for L in C01.NARROW_LIMITS:
+        for r in ("i64", "u64", "i128", "usize", "i8"):
+            lo, hi = M.repr_domain(r)
+            for vals in ([L, L - 5], [L - 3, L, L - 2, L - 1]):
+                if min(vals) < lo or max(vals) > hi:
+                    continue
+                out.append({"descent_after": {"repr": r, "vals": vals}})
+    return out
+
+
+def run_descent_after(case):
+    out = J.Outcome()
+    d = case["descent_after"]
+    spec = {"repr": d["repr"], "vis": "pub", "ident": "E", "enum_attrs": [],
+            "variants": [{"ident": "V%d" % i, "disc": str(v)} for i, v in enumerate(d["vals"])]}
+    for flags in (["value"], ["name", "value"]):
+        cfg = {"feats": [{"f": "sorted", "params": [[k, None] for k in flags]}], "groups": [1], "pos": ["pre"]}
+        ok, _err = J.accepts(E.enum_item_text(spec, cfg))
+        if ok:
+            out.violate("an unsorted declaration was accepted under sorted(..)", flags=flags, repr=d["repr"], values=d["vals"])
+    out.nontrivial = True
+    out.fingerprint = J.fp("descent_after", d)
+    out.sample = {"descent_after_limit": d}
     return out
 
 
@@ -186,6 +211,8 @@ def predicate(m, flags):
 def run_case(case):
     if "descent" in case:
         return run_descent(case)
+    if "descent_after" in case:
+        return run_descent_after(case)
     out = J.Outcome()
     s2 = arrange(case)
     m = M.RefEnum(s2)
